@@ -1321,3 +1321,16 @@ Example C05_db_sample_insert_new_alias :
     so_alias_new_ok sa_hs sa_hi w 2%Z sa_new.
 Proof. exact sa_sample. Qed.
 Print Assumptions C05_db_sample_insert_new_alias.
+
+(* ... and the program RUNS (theories/StoredDbOpsAliasExample2.v): sb_prog = the two resizes, then so_alias_insert_new for the id 2
+   and the alias "k" with EVERY unmodelled branch instantiated by CDead (entering one would kill the run).  On the file-like
+   model of storage.rs the run ends (so_replay) and the record map it reaches holds insert_new_alias sx_db 2 "k": "k" names
+   node 2, node 2 has the alias "k", the old alias still names node 1 *)
+From Agdb Require Import StoredDbOpsAliasExample2.
+Example C05_db_sample_insert_new_alias_run :
+  exists sp w, stored_db_w (hp sp) 1 (insert_new_alias sx_db 2%Z sa_new) w /\
+               imap_value (aliases (insert_new_alias sx_db 2%Z sa_new)) sa_new = Some 2%Z /\
+               imap_key (aliases (insert_new_alias sx_db 2%Z sa_new)) 2%Z = Some sa_new /\
+               imap_value (aliases (insert_new_alias sx_db 2%Z sa_new)) sx_alias = Some 1%Z.
+Proof. exact sb_sample. Qed.
+Print Assumptions C05_db_sample_insert_new_alias_run.
